@@ -47,7 +47,7 @@ MINIMUMS = {
 
 FNS = [kinds.node, kinds.node2, kinds.two, kinds.three, kinds.Base, kinds.Mid, kinds.target3,
        kinds.DC, kinds.DCKwOnly, kinds.DCFamilyBase, kinds.DCFamilySub, kinds.DCFamilySwitched,
-       kinds.mutdef, kinds.prefdef, kinds.booldef, kinds.tagged_fn, kinds.PosInit,
+       kinds.mutdef, kinds.prefdef, kinds.booldef, kinds.booldef_twin, kinds.tagged_fn, kinds.PosInit,
        sigs.g_posonly_defaults, sigs.g_posonly_mixed, sigs.g_a1_b2_va_k_vk, sigs.g_a_b_c3_k4_j]
 LEAVES = [0, 1, True, False, 1.0, 0.0, 2, 3, 'a', '', None, (1, 2), (), ('x', (3, 4)), 2.5,
           kinds.Color.RED, kinds.two, 'Dp0', 'K', 'db', 'kb', 'y',
